@@ -6,7 +6,8 @@
 //
 // entry = <kind>:<relative path hex>:<content hex>, kinds: f regular file, d directory, m missing, l dangling symlink,
 // n path whose parent is a regular file, v regular file that is removed while the hasher runs, r opens but cannot be
-// read (a symlink to /proc/self/mem: open and stat succeed, read fails with EIO). A 0x00 byte inside a
+// read (a symlink to /proc/self/mem: open and stat succeed, read fails with EIO), x regular file that cannot be OPENED
+// because the process has run out of file descriptors while the list is hashed (EMFILE, for as long as the call lasts). A 0x00 byte inside a
 // relative path stands for the absolute root directory (needed for the D3 witness, whose path embeds another path).
 // The first variant is the base list; labels perm/dirs = same collection, content/rename/add/remove/diff = a different
 // collection, other = unrelated. Every variant is materialised in a fresh temp tree and hashed `r` times with the real
@@ -279,6 +280,9 @@ func build(root string, v variant) {
 		case 'r':
 			_ = os.MkdirAll(filepath.Dir(p), 0o755)
 			_ = os.Symlink("/proc/self/mem", p)
+		case 'x':
+			_ = os.MkdirAll(filepath.Dir(p), 0o755)
+			_ = os.WriteFile(p, []byte(e.content), 0o644)
 		case 'm':
 			_ = os.MkdirAll(filepath.Dir(p), 0o755)
 		}
@@ -365,7 +369,33 @@ func runGroup(g group) string {
 					}
 				}
 			}
+			// an `x` entry: every descriptor the process may have is taken while the hasher runs
+			var hogs []*os.File
+			for _, e := range v.es {
+				if e.kind == 'x' {
+					var lim syscall.Rlimit
+					if syscall.Getrlimit(syscall.RLIMIT_NOFILE, &lim) == nil && lim.Cur > 256 {
+						old := lim
+						lim.Cur = 256
+						if syscall.Setrlimit(syscall.RLIMIT_NOFILE, &lim) == nil {
+							prev := restore
+							restore = func() { _ = syscall.Setrlimit(syscall.RLIMIT_NOFILE, &old); prev() }
+						}
+					}
+					for {
+						fh, err := os.Open("/dev/null")
+						if err != nil {
+							break
+						}
+						hogs = append(hogs, fh)
+					}
+					break
+				}
+			}
 			o := safeHash(paths)
+			for _, fh := range hogs {
+				fh.Close()
+			}
 			restore()
 			calls++
 			seen[o] = true
@@ -688,6 +718,10 @@ func edits(c coll, rng *rand.Rand, max int) []variant {
 				vs = append(vs, variant{"rename", rename(c, e.rel, n)})
 			}
 		}
+		// a rename that changes nothing but the case of the name (README.md -> Readme.md)
+		if up := strings.ToUpper(e.rel[:1]) + e.rel[1:]; up != e.rel && !seen[up] {
+			vs = append(vs, variant{"rename", rename(c, e.rel, up)})
+		}
 		var rem coll
 		for _, x := range c {
 			if x.rel != e.rel {
@@ -892,13 +926,15 @@ func faultEntry(kind byte, i int) entry {
 		return entry{'l', fmt.Sprintf("link%d", i), ""}
 	case 'r':
 		return entry{'r', fmt.Sprintf("eio%d", i), ""}
+	case 'x':
+		return entry{'x', fmt.Sprintf("nofd%d", i), "cannot be opened just now"}
 	}
 	return entry{'m', fmt.Sprintf("nope%d.txt", i), ""}
 }
 
 // faultKinds: missing, dangling link, parent is a file, vanishing — and "read fails" where /proc/self/mem behaves so
 func faultKinds() []byte {
-	ks := []byte{'m', 'l', 'n', 'v'}
+	ks := []byte{'m', 'l', 'n', 'v', 'x'}
 	if fh, err := os.Open("/proc/self/mem"); err == nil {
 		var b [1]byte
 		if st, err := fh.Stat(); err == nil && st.Mode().IsRegular() {
